@@ -219,8 +219,15 @@ func TestVerifDriverC06(t *testing.T) {
 		verifC06DialLock.Unlock()
 		return nil, errors.New("verif: dial suppressed")
 	}
+	// pion's default logger writes to whatever os.Stdout is when a PeerConnection API is created;
+	// keep the result stream clean: wire.Loop binds the real stdout first, then the variable is
+	// pointed at stderr for everybody else.
+	realStdout := os.Stdout
+	os.Stdout = os.Stderr
 	verifC06SharedPC, verifC06SharedOffer = verifC06ClientOffer()
+	os.Stdout = realStdout
 	wire.Loop(func(args []string) string {
+		os.Stdout = os.Stderr
 		if len(args) >= 5 && (args[0] == "url" || args[0] == "urlfull") {
 			return verifC06URL(args, args[0] == "urlfull")
 		}
